@@ -149,6 +149,15 @@ fn homogeneous<T: Tier>(rep: &mut Report) {
             // concat(s, t) = s * t
             let c4 = Transform::<Point3<T>>::concat(&t4, &n4);
             eq_v::<T, 3>(ctx, &key("Matrix4/concat"), p3(c4.transform_point(p)), model::vadd(sp, mtr));
+            eq_m::<T, 4>(ctx, &key("Matrix4/concat=product"), m4(c4), model::mmul(lift_m(m4(t4)), lift_m(m4(n4))));
+            let c4g = Transform::<Point3<T>>::concat(&g4, &n4);
+            eq_m::<T, 4>(ctx, &key("Matrix4/concat=product"), m4(c4g), model::mmul(lift_m(m4(g4)), lift_m(m4(n4))));
+            // Matrix3 as a transform of 3-space: concat is the matrix product, in this order
+            let a3t = a3.transpose();
+            let c33 = Transform::<Point3<T>>::concat(&a3, &a3t);
+            eq_m::<T, 3>(ctx, &key("Matrix3<P3>/concat=product"), m3(c33), model::mmul(m3e, model::mtranspose(m3e)));
+            let c33r = Transform::<Point3<T>>::concat(&a3t, &a3);
+            eq_m::<T, 3>(ctx, &key("Matrix3<P3>/concat=product"), m3(c33r), model::mmul(model::mtranspose(m3e), m3e));
             // --- Matrix3 acting on Point3 / Vector3 (pure linear)
             eq_v::<T, 3>(ctx, &key("Matrix3<P3>/transform_point"), p3(Transform::<Point3<T>>::transform_point(&a3, p)), lin_p);
             eq_v::<T, 3>(ctx, &key("Matrix3<P3>/transform_vector"), v3(Transform::<Point3<T>>::transform_vector(&a3, v)), lin_v);
@@ -189,6 +198,9 @@ fn homogeneous<T: Tier>(rep: &mut Report) {
             eq_v::<T, 2>(ctx, &key("Matrix3<P2>/transform_vector"), v2(Transform::<Point2<T>>::transform_vector(&g3, w)), lw);
             let c3 = Transform::<Point2<T>>::concat(&t3, &n3);
             eq_v::<T, 2>(ctx, &key("Matrix3<P2>/concat"), p2(Transform::<Point2<T>>::transform_point(&c3, q)), model::vadd(sq, mtr2));
+            eq_m::<T, 3>(ctx, &key("Matrix3<P2>/concat=product"), m3(c3), model::mmul(lift_m(m3(t3)), lift_m(m3(n3))));
+            let c3g = Transform::<Point2<T>>::concat(&g3, &n3);
+            eq_m::<T, 3>(ctx, &key("Matrix3<P2>/concat=product"), m3(c3g), model::mmul(lift_m(m3(g3)), lift_m(m3(n3))));
         },
     );
 }
@@ -427,6 +439,11 @@ fn ring<T: Tier, M: MatN<T, N>, const N: usize>(rep: &mut Report) {
             eq_m::<T, N>(ctx, &key("law/distrib-right"), (ca * cc + cb * cc).arr(), model::madd(model::mmul(ma, mc), model::mmul(mb, mc)));
             same_slice(ctx, &key("law/identity-left"), &flat_m((M::identity() * ca).arr()), &flat_m(a));
             same_slice(ctx, &key("law/identity-right"), &flat_m((ca * M::identity()).arr()), &flat_m(a));
+            // the additive and multiplicative identities of the ring, as the num-traits style constructors name them
+            same_slice(ctx, &key("zero()"), &flat_m(<M as cgmath::Zero>::zero().arr()), &vec![T::zero(); N * N]);
+            same_slice(ctx, &key("law/zero-is-additive-identity"), &flat_m((ca + <M as cgmath::Zero>::zero()).arr()), &flat_m(a));
+            same_slice(ctx, &key("law/zero-is-additive-identity"), &flat_m((<M as cgmath::Zero>::zero() + ca).arr()), &flat_m(a));
+            same_slice(ctx, &key("one()"), &flat_m(<M as cgmath::One>::one().arr()), &flat_m(M::identity().arr()));
             eq_v::<T, N>(ctx, &key("law/linear-add"), (ca * (cv + cw)).arr(), model::mvec(ma, model::vadd(mv, mw)));
             eq_v::<T, N>(ctx, &key("law/linear-add"), (ca * cv + ca * cw).arr(), model::vadd(model::mvec(ma, mv), model::mvec(ma, mw)));
             eq_v::<T, N>(ctx, &key("law/linear-scale"), (ca * (cv * s0)).arr(), model::mvec(ma, model::vscale(mv, s0.lift())));
